@@ -24,7 +24,9 @@
    (`self._data = dict(data)`), [Old] is the code before the fix
    (`self._data = data`), kept as a mutant for C11_no_alias_refuted_old;
    [PopInPlace] is the current __init__ with a mutant copy_pop that pops from
-   a new ImmutableDict SHARING the receiver's _data (C11_copy_pop_refuted_inplace). *)
+   a new ImmutableDict SHARING the receiver's _data (C11_copy_pop_refuted_inplace);
+   [SubclassCopy] is a mutant __init__ copying with `data.copy()`, which keeps
+   the class of a dict subclass (C11_reads_pure_refuted_subclass_copy). *)
 From Coq Require Import List NArith Bool Arith.
 From SWH.lib Require Import Bytes Order StableSort.
 From SWH Require Import Generated.
@@ -50,7 +52,9 @@ Inductive pyval :=
 | VOMap (mutable : bool) (items : list (atom * pyval)).  (* idem: a dict (true) / an ImmutableDict (false) *)
 
 Inductive cell :=
-| PyDict (items : list (atom * pyval))   (* insertion order; keys pairwise distinct *)
+| PyDict (factory : bool) (items : list (atom * pyval))
+    (* insertion order; keys pairwise distinct.  factory = true: an instance of a dict SUBCLASS with a
+       __missing__ that inserts (collections.defaultdict, ...): a failed d[k] inserts k *)
 | PyList (items : list pyval).
 
 Definition store := list cell.
@@ -131,12 +135,12 @@ Definition mut_target (m : mut) : handle :=
 Definition apply_mut (s : store) (m : mut) : store :=
   match m with
   | MSetItem h k v =>
-      match lookup s h with Some (PyDict it) => update s h (PyDict (dict_set k v it)) | _ => s end
+      match lookup s h with Some (PyDict fac it) => update s h (PyDict fac (dict_set k v it)) | _ => s end
   | MDelItem h k =>
-      match lookup s h with Some (PyDict it) => update s h (PyDict (dict_del k it)) | _ => s end
+      match lookup s h with Some (PyDict fac it) => update s h (PyDict fac (dict_del k it)) | _ => s end
   | MClear h =>
       match lookup s h with
-      | Some (PyDict _) => update s h (PyDict [])
+      | Some (PyDict fac _) => update s h (PyDict fac [])
       | Some (PyList _) => update s h (PyList [])
       | None => s
       end
@@ -254,7 +258,7 @@ Fixpoint freeze (f : nat) (s : store) (v : pyval) : option pyval :=
                                                 (freeze f' s (snd kv))) it))
       | VIDict h | VRef h =>
           match lookup s h with
-          | Some (PyDict it) =>
+          | Some (PyDict _ it) =>
               option_map VTuple
                 (seq_opt (map (fun kv => option_map (fun x => VTuple [VAtom (fst kv); x])
                                                     (freeze f' s (snd kv))) it))
@@ -280,12 +284,12 @@ Fixpoint deepcopy (f : nat) (s : store) (v : pyval) : option pyval :=
       | VOMap m it => option_map (VOMap m) (items it)
       | VIDict h =>
           match lookup s h with
-          | Some (PyDict it) => option_map (VOMap false) (items it)
+          | Some (PyDict _ it) => option_map (VOMap false) (items it)
           | _ => None
           end
       | VRef h =>
           match lookup s h with
-          | Some (PyDict it) => option_map (VOMap true) (items it)
+          | Some (PyDict _ it) => option_map (VOMap true) (items it)
           | Some (PyList l) => option_map VOList (seq_opt (map (deepcopy f' s) l))
           | None => None
           end
@@ -306,12 +310,12 @@ Definition as_kv (s : store) (v : pyval) : option (atom * pyval) :=
   | _ => None
   end.
 
-Inductive variant := New | Old | PopInPlace.
+Inductive variant := New | Old | PopInPlace | SubclassCopy.
 
 (* ImmutableDict.__init__, `else` branch: {k: v for k, v in data} *)
 Definition idict_of_seq (s : store) (l : list pyval) : result (pyval * store) :=
   match seq_opt (map (as_kv s) l) with
-  | Some kvs => let (h, s') := alloc s (PyDict (dict_of_pairs kvs)) in Ok (VIDict h, s')
+  | Some kvs => let (h, s') := alloc s (PyDict false (dict_of_pairs kvs)) in Ok (VIDict h, s')
   | None => Err ETypeError
   end.
 
@@ -321,10 +325,11 @@ Definition idict_init (var : variant) (s : store) (v : pyval) : result (pyval * 
   | VIDict h => Ok (VIDict h, s)                     (* self._data = data._data *)
   | VRef h =>
       match lookup s h with
-      | Some (PyDict it) =>
+      | Some (PyDict fac it) =>
           match var with
           | Old => Ok (VIDict h, s)                                            (* data itself *)
-          | _ => let (h', s') := alloc s (PyDict it) in Ok (VIDict h', s')     (* dict(data) *)
+          | SubclassCopy => let (h', s') := alloc s (PyDict fac it) in Ok (VIDict h', s')  (* data.copy(): keeps the subclass *)
+          | _ => let (h', s') := alloc s (PyDict false it) in Ok (VIDict h', s')   (* dict(data): a plain dict *)
           end
       | Some (PyList l) => idict_of_seq s l
       | None => Err ETypeError
@@ -346,13 +351,13 @@ Definition copy_pop (var : variant) (f : nat) (s : store) (v : pyval) (k : atom)
   match v with
   | VIDict h =>
       match lookup s h with
-      | Some (PyDict it) =>
+      | Some (PyDict fac it) =>
           match var with
-          | PopInPlace => Ok (popped k it VNone, VIDict h, update s h (PyDict (dict_del k it)))
+          | PopInPlace => Ok (popped k it VNone, VIDict h, update s h (PyDict fac (dict_del k it)))
           | _ =>
               match deepcopy f s (VIDict h) with
               | Some (VOMap _ kvs) =>
-                  let (h', s') := alloc s (PyDict (dict_del k kvs)) in
+                  let (h', s') := alloc s (PyDict (match var with SubclassCopy => fac | _ => false end) (dict_del k kvs)) in
                   Ok (popped k kvs VNone, VIDict h', s')
               | _ => Err EOutOfFuel
               end
@@ -374,8 +379,8 @@ Definition tuplify (s : store) (v : pyval) : result pyval :=
   | VRef h =>
       match lookup s h with
       | Some (PyList l) => go l
-      | Some (PyDict []) => Ok (VTuple [])
-      | Some (PyDict _) => Err EValueError
+      | Some (PyDict _ []) => Ok (VTuple [])
+      | Some (PyDict _ _) => Err EValueError
       | None => Err ETypeError
       end
   | _ => Err ETypeError
@@ -425,7 +430,7 @@ Definition conv_one (var : variant) (f : nat) (rt : route) (cls fname : bytes)
       else
         match v with
         | VRef h => match lookup s h with
-                    | Some (PyDict _) => idict_init var s v
+                    | Some (PyDict _ _) => idict_init var s v
                     | _ => Err ETypeError
                     end
         | VIDict _ | VNone => Ok (v, s)
@@ -487,12 +492,12 @@ Fixpoint resolve (f : nat) (s : store) (v : pyval) : rval :=
       | VObj c fs => RObj c (map (resolve f' s) fs)
       | VIDict h =>
           match lookup s h with
-          | Some (PyDict it) => RMap false (map (fun kv => (fst kv, resolve f' s (snd kv))) it)
+          | Some (PyDict _ it) => RMap false (map (fun kv => (fst kv, resolve f' s (snd kv))) it)
           | _ => RBad
           end
       | VRef h =>
           match lookup s h with
-          | Some (PyDict it) => RMap true (map (fun kv => (fst kv, resolve f' s (snd kv))) it)
+          | Some (PyDict _ it) => RMap true (map (fun kv => (fst kv, resolve f' s (snd kv))) it)
           | Some (PyList l) => RSeq true (map (resolve f' s) l)
           | None => RBad
           end
@@ -500,7 +505,7 @@ Fixpoint resolve (f : nat) (s : store) (v : pyval) : rval :=
   end.
 
 Definition cell_values (c : cell) : list pyval :=
-  match c with PyDict it => map snd it | PyList l => l end.
+  match c with PyDict _ it => map snd it | PyList l => l end.
 
 Definition memh (h : handle) (hs : list handle) : bool := existsb (Nat.eqb h) hs.
 
@@ -670,7 +675,7 @@ Section WithHash.
     match get_field K_META rows vals, get_field K_XH rows vals with
     | Some (VIDict hm), Some (VTuple []) =>
         match lookup s hm with
-        | Some (PyDict it) =>
+        | Some (PyDict _ it) =>
             match assoc XH_KEY it with
             | None => Ok (vals, s)
             | Some _ =>
@@ -728,7 +733,7 @@ Section WithHash.
     match d with
     | VRef hd =>
         match lookup s hd, class_fields ALL_CLASSES cls with
-        | Some (PyDict items), Some rows =>
+        | Some (PyDict _ items), Some rows =>
             match from_dict_args rows items with
             | Some args => construct var f FromDict cls s args
             | None => Err ETypeError
@@ -795,6 +800,64 @@ Definition obj_mutate (s : store) (o : pyval) (c : channel) : err * store * pyva
   end.
 
 (* ------------------------------------------------------------------ *)
+(* READ operations on a frozen mapping, or on a mapping-typed field of an
+   object.  Mapping.__contains__ and Mapping.get are `try: self[key]`, and
+   ImmutableDict.__getitem__ is `self._data[key]`: the only primitive through
+   which a read reaches the stored dict BY KEY is [data_getitem].  On a plain
+   dict a failed lookup raises KeyError and changes nothing; on an instance of
+   a dict subclass with an inserting __missing__ it inserts the key.
+   Iteration, len, items(), to_dict(), hash() and == go through
+   self._data.items() / len(self._data): functions of the content ([resolve]),
+   they take no key. *)
+Inductive readkind :=
+| RdContains (k : atom)      (* k in m *)
+| RdGet (k : atom)           (* m.get(k) *)
+| RdGetItem (k : atom)       (* m[k] *)
+| RdIter | RdLen | RdItems | RdToDict | RdHash | RdEq.
+
+Definition data_getitem (s : store) (h : handle) (k : atom) : store * option pyval :=
+  match lookup s h with
+  | Some (PyDict fac it) =>
+      match assoc k it with
+      | Some x => (s, Some x)
+      | None =>
+          if fac then (update s h (PyDict fac (dict_set k VNone it)), Some VNone)   (* __missing__ inserts *)
+          else (s, None)                                                          (* KeyError *)
+      end
+  | _ => (s, None)
+  end.
+
+(* the mapping a read addresses: the value itself, or one of its fields *)
+Definition read_target (v : pyval) (fld : option bytes) : option pyval :=
+  match fld with
+  | None => Some v
+  | Some name =>
+      match v with
+      | VObj cls vals =>
+          match class_fields ALL_CLASSES cls with
+          | Some rows => get_field name rows vals
+          | None => None
+          end
+      | _ => None
+      end
+  end.
+
+Definition do_read (s : store) (v : pyval) (fld : option bytes) (r : readkind) : store * option err :=
+  match r with
+  | RdContains k | RdGet k | RdGetItem k =>
+      match read_target v fld with
+      | Some (VIDict h) =>
+          let (s', x) := data_getitem s h k in
+          (s', match r, x with RdGetItem _, None => Some EKeyError | _, _ => None end)
+      | _ => (s, Some ETypeError)
+      end
+  | _ => (s, None)
+  end.
+
+Definition run_reads (s : store) (v : pyval) (reads : list (option bytes * readkind)) : store :=
+  fold_left (fun s0 r => fst (do_read s0 v (fst r) (snd r))) reads s.
+
+(* ------------------------------------------------------------------ *)
 (* Hypotheses of the no-alias theorem, as booleans.
 
    [hs] = the handles the caller goes on mutating.  An argument is acceptable
@@ -848,7 +911,7 @@ Definition arg_handles (args : list pyval) : list handle :=
 (* ------------------------------------------------------------------ *)
 (* A scripted run, for the correspondence check: build, observe, then after
    each caller mutation / each attempt on the object observe again. *)
-Inductive step := SMut (m : mut) | SChan (c : channel) | SCopyPop (k : atom).
+Inductive step := SMut (m : mut) | SChan (c : channel) | SCopyPop (k : atom) | SRead (fld : option bytes) (r : readkind).
 
 Section Script.
   Variable Hid : rval -> atom.
@@ -869,6 +932,9 @@ Section Script.
         | Ok (_, _, s') => let (l, sf) := run_steps var f s' o r in ((None, observe Hid Hpy f s' o) :: l, sf)
         | Err e => let (l, sf) := run_steps var f s o r in ((Some e, observe Hid Hpy f s o) :: l, sf)
         end
+    | SRead fld rd :: r =>           (* a read-only access; the object is observed again *)
+        let (s', e) := do_read s o fld rd in
+        let (l, sf) := run_steps var f s' o r in ((e, observe Hid Hpy f s' o) :: l, sf)
     end.
 
   (* [watch]: values (the already-frozen arguments) observed before the
@@ -946,7 +1012,7 @@ Arguments A s%string.
 Arguments Ak s%string.
 
 (* Snapshot(branches=d, id=b"") then d[k2] = x *)
-Definition ex_store : store := [PyDict [(Ak "k1", A "v1")]].
+Definition ex_store : store := [PyDict false [(Ak "k1", A "v1")]].
 Definition ex_args : list pyval := [VRef 0%nat; VAtom EMPTY_BYTES].
 Definition ex_muts : list step := [SMut (MSetItem 0%nat (Ak "k2") (A "v2"))].
 
